@@ -43,8 +43,11 @@ Theorem tree_sort_refuses_only_duplicates : forall t, tree_sort t = SortDup -> ~
 Proof. exact tree_sort_dup. Qed.
 Print Assumptions tree_sort_refuses_only_duplicates.
 
-(* ---- ops_paths_clean: every path handed to a system call is empty (only for a
-   non-directory root inode: the call fails with ENOENT) or relative with only
+(* ---- ops_paths_clean: every path handed to a system call is empty (that is the
+   path of the root entry itself; the statement does not say for which root
+   kinds it occurs - an independent audit pointed out that an earlier comment
+   claimed more - and unpack_confined below covers the empty path like every
+   other: nothing at or above R changes) or relative with only
    non-empty components other than "." and "..", and every proper prefix of it
    was the argument of an earlier mkdir of the same run ---- *)
 Theorem ops_paths_clean :
